@@ -201,6 +201,17 @@ resp0_ctx_send(void *arg, nni_aio *aio)
 		return;
 	}
 
+	if (ctx->saio != NULL) {
+		// An earlier response of this context is still waiting for
+		// its pipe (the context has received and answered another
+		// survey since).  A context carries one response at a time;
+		// this one supersedes it.
+		nni_aio *old = ctx->saio;
+		ctx->saio    = NULL;
+		nni_list_node_remove(&ctx->sqnode);
+		nni_msg_header_clear(nni_aio_get_msg(old));
+		nni_aio_finish_error(old, NNG_ECANCELED);
+	}
 	ctx->saio  = aio;
 	ctx->spipe = p;
 	nni_list_append(&p->sendq, ctx);
